@@ -104,6 +104,8 @@ func rtBuild(c Sx, caching bool) *rtRouter {
 			lateOpt = true
 		case "group":
 			groupPrefix, inGroup = o.List[1].Str(), true
+		case "enc": // requests are matched on the escaped form of their path
+			opts = append(opts, rux.UseEncodedPath)
 		case "direct": // the option functions are applied by calling them with the (still empty) router
 			direct = true
 		case "gvar":
@@ -310,6 +312,12 @@ func (rr *rtRouter) serve(m, p string) (status int, who string, params Sx, allow
 	allow = w.hdr.Get("Allow")
 	if rtCur.who == "na" {
 		allow = rtCur.data
+	}
+	if rtCur.who == "none" && !panicked { // the default answers have their documented bodies
+		want := map[int]string{404: "404 page not found\n", 405: "Method not allowed\n", 200: ""}[w.code]
+		if string(w.body) != want {
+			rtCur.who = "default-answer-with-another-body"
+		}
 	}
 	return w.code, rtCur.who, rtCur.params, allow, panicked
 }
